@@ -12,14 +12,14 @@ import (
 
 // Scenario is one closed driver to be explored.
 type Scenario struct {
-	Name      string
-	Reset     func()                  // brings all package state back to its initial value; called before every execution
-	Body      func()                  // root thread
-	Check     func(r *Result) []Issue // oracle over one finished execution
-	Invariant func() string           // optional state invariant, evaluated at every step inside the window
-	MaxSteps  int
-	MapDesc   bool
-	PreemptIn []string // see Config.PreemptIn
+	Name               string
+	Reset              func()                  // brings all package state back to its initial value; called before every execution
+	Body               func()                  // root thread
+	Check              func(r *Result) []Issue // oracle over one finished execution
+	Invariant          func() string           // optional state invariant, evaluated at every step inside the window
+	MaxSteps           int
+	MapDesc            bool
+	PreemptIn          []string // see Config.PreemptIn
 	PreemptionBounding bool
 	HighFirst          bool
 }
